@@ -3,6 +3,7 @@
 From V.lib Require Import Base.
 From V.c13 Require Import C13Spec C13Model.
 From V.c17 Require Import C17Spec C17Model C17RbspProofs C17WriterProofs C17EbspProofs.
+From V.c17 Require Import C17TypedModel C17BitProofs C17TypedProofs.
 
 (* the 0xFF-run code of payload type (Go uint accumulator) and payload size (uint32
    accumulator) decodes to the value and leaves the rest of the input untouched: every value
@@ -63,3 +64,77 @@ Theorem C17_empty_list_rejected :
   write_sei_messages [] = [128] /\ extract_sei_data [128] = XErr.
 Proof. exact empty_list_rejected. Qed.
 Print Assumptions C17_empty_list_rejected.
+
+(* ---------------------------------------------------------------- typed messages *)
+(* canonical = every field fits its coded width and every field the flags make absent is zero.
+   *_payload_spec is the FixedSliceWriter output read as a bit list (coded bits, final 1 bit for the
+   time code, zero padding, cut at the capacity Size()); the executable *_payload runs the same ops
+   through the C13 FixedSliceWriter model and is compared with it on every correspondence case. *)
+
+(* SEI 136 time code: 0..3 clocks, every flag combination, time-offset lengths 0..31; includes the
+   case where the coded bit length is a multiple of 8 and the final 1 bit overflows the buffer *)
+Theorem C17_timecode : forall cs,
+  tc_canonical cs = true ->
+  tc_decode (tc_payload_spec cs) = Ok cs /\ lenN (tc_payload_spec cs) = tc_size cs.
+Proof. exact timecode_roundtrip. Qed.
+Print Assumptions C17_timecode.
+
+Example C17_timecode_hyp :
+  let cs := [mkClock true true 3 false true false 300 true 59 true 58 false 0 5 17;
+             mkClock true false 0 true false false 25 false 1 false 2 false 3 0 0;
+             clock_zero] in
+  tc_canonical cs = true /\ tc_payload cs = tc_payload_spec cs /\ tc_size cs = 11.
+Proof. repeat split; vm_compute; reflexivity. Qed.
+
+(* a time code whose coded length is a multiple of 8 (2 + 1 + 18 + 1 + 5 + 5 = 32 bits): the final
+   1 bit does not fit the buffer and is dropped; Size() = 4 = the payload length *)
+Example C17_timecode_aligned :
+  let cs := [mkClock true false 0 false false false 0 false 0 false 0 false 0 5 1] in
+  tc_canonical cs = true /\ tc_payload cs = [96; 0; 0; 161] /\ tc_size cs = 4 /\
+  tc_decode (tc_payload cs) = Ok cs.
+Proof. repeat split; vm_compute; reflexivity. Qed.
+
+(* AVC SEI 1 picture timing, with and without HRD delays, external time-offset length 0..31,
+   1..3 clocks as pict_struct dictates, every flag combination *)
+Theorem C17_pic_timing_avc : forall m,
+  pt_canonical m = true ->
+  pt_decode (p_hrd m) (p_tolen m) (pt_payload_spec m) = Ok m /\ lenN (pt_payload_spec m) = pt_size m.
+Proof. exact pic_timing_roundtrip. Qed.
+Print Assumptions C17_pic_timing_avc.
+
+Example C17_pic_timing_avc_hyp :
+  let m := mkPT (Some (mkHrd 1000 2000 23 15 20)) 5 3
+                [mkClockAvc true 1 false 4 true false true 200 false 5 false 6 false 7 5 (-3)%Z;
+                 clock_avc_zero 5] in
+  pt_canonical m = true /\ pt_payload m = pt_payload_spec m.
+Proof. split; vm_compute; reflexivity. Qed.
+
+Theorem C17_mdcv : forall m,
+  mdcv_canonical m = true ->
+  mdcv_decode (mdcv_payload m) = Ok m /\ lenN (mdcv_payload m) = mdcv_size.
+Proof. exact mdcv_roundtrip. Qed.
+Print Assumptions C17_mdcv.
+
+Theorem C17_cll : forall m,
+  cll_canonical m = true ->
+  cll_decode (cll_payload m) = Ok m /\ lenN (cll_payload m) = cll_size.
+Proof. exact cll_roundtrip. Qed.
+Print Assumptions C17_cll.
+
+Example C17_mdcv_cll_hyp :
+  mdcv_canonical (mkMdcv 65535 1 0 0 1 48026 0 0 4294967295 1) = true /\ cll_canonical (mkCll 1000 65535) = true.
+Proof. split; reflexivity. Qed.
+
+(* pass-through messages: whenever the decoder returns a message (it can also fail or index out of
+   range: C16), Payload() is the input and Size() its length *)
+Theorem C17_passthrough :
+  (forall pl m, decode_registered pl = Ok m -> pass_payload m = pl /\ pass_size m = lenN pl) /\
+  (forall pl m, decode_unregistered pl = Ok m -> pass_payload m = pl /\ pass_size m = lenN pl) /\
+  (forall par pl m, decode_pic_timing_hevc par pl = Ok m -> pass_payload m = pl /\ pass_size m = lenN pl).
+Proof. exact passthrough_all. Qed.
+Print Assumptions C17_passthrough.
+
+Example C17_passthrough_hyp :
+  exists m, decode_registered [181; 0; 49; 71; 65; 57; 52; 3; 193; 255; 252; 148; 44; 255] = Ok m /\
+            ps_kind m = KCea608 [148; 44] [].
+Proof. eexists. split; vm_compute; reflexivity. Qed.
